@@ -86,7 +86,11 @@ def cases(seed, tier, shard, nshards):
         if use_index:
             # plain entries and sort@display entries whose two parts start with different letters
             prefix += ' '.join('Ix%dz\\index{%s}' % (k, r.choice(WORDS + IDX_AT)) for k in range(r.randint(1, 6))) + '\n\n'
-        if use_bib:
+        natbib = use_bib and r.random() < 0.4
+        if natbib:
+            # the natbib commands in numeric mode (author-year mode needs the .aux file of a LaTeX run)
+            prefix += 'Cite \\citep{zk1} and \\citet[p.~2]{zk2} and \\cite{zk1,zk2}.\n\n'
+        elif use_bib:
             prefix += 'Cite \\cite{zk1} and \\cite{zk2}.\n\n'
         suffix = '\n\n' + src_refs + '\n'
         if r.random() < 0.35:
@@ -97,8 +101,11 @@ def cases(seed, tier, shard, nshards):
         if use_bib:
             suffix += '\n\\begin{thebibliography}{9}\\bibitem{zk1} BibA1z \\bibitem{zk2} BibA2z \\end{thebibliography}\n'
         if use_index:
-            suffix += '\n\\printindex\n'
+            # \printindex, or the environment an included makeindex .ind file consists of (plasTeX builds its own entries either way)
+            suffix += '\n\\printindex\n' if r.random() < 0.7 else '\n\\begin{theindex}\n\\item Zi1y, 1\n\\indexspace\n\\item Zi2y, 2\n\\end{theindex}\n'
         pre = '\\usepackage{makeidx}\\makeindex\n' if use_index else ''
+        if natbib:
+            pre += '\\usepackage[numbers]{natbib}\n'
         src = docs.latex(d, extra_preamble=pre, body_prefix=prefix, body_suffix=suffix)
         exp, m = CM.numbers(d, 2)
         number_of = {l: n for k, n, l in exp if l}
